@@ -32,6 +32,18 @@ impl Formatter for NextLineBreakRemover {
     fn format(&self, content: &str, byte_pos: usize) -> (usize, usize) {
         let bytes = content.as_bytes();
 
+        // Only a blank line is merged with the blank line behind it:
+        // nothing but blanks may precede the removal position on its line.
+        let is_start_of_line_blank = bytes[..byte_pos.min(bytes.len())]
+            .iter()
+            .rev()
+            .take_while(|&&b| b != b'\n')
+            .all(|&b| b == b' ' || b == b'\t');
+
+        if !is_start_of_line_blank {
+            return (byte_pos, byte_pos);
+        }
+
         let line_break_pos = find_next_line_break_pos(content, bytes, byte_pos, true)
             .and_then(|pos| find_next_line_break_pos(content, bytes, pos + 1, true));
 
